@@ -17,6 +17,34 @@ add("C03", "exploration", "runtime postconditions on the real operator builders 
     "Nine identities (L = div grad, area-weighted divergence sums to zero, boundary-flux integral, symmetry/NSD, null space = constants, Hermiticity for random A, gradient exact on linear functions, entry-wise equality with an independent per-edge assembly) are asserted on the matrices returned by the real builders for every mesh of a generated zoo (device meshes with holes/smoothing, hexagonal, random Delaunay, annulus, explicit meshes with arbitrary positive areas/dual lengths over six decades). Held on the meshes explored; sampling, not proof.",
     "numpy/scipy linear algebra; the mesh's own geometry arrays define the operators here (their correctness is C07)", "DESIGN.md 4/C03")
 
+add("C01", "exploration", "online charge-balance monitor at every TDGLSolver.update return + offline check of every HDF5 frame, CODATA-based expected fluxes",
+    "Per-cell net outflow (from edge currents and dual lengths) is compared at every update return and on every saved frame with the requested terminal current's share of that cell, over generated devices (2-4 terminals, holes, units, fields, constant/decimal/time-dependent currents, screening, adaptive). Also: every generated balanced assignment must be accepted. Held on the runs explored.",
+    "terminal edge membership and dual lengths taken from the mesh (checked in C07); gate 1e-8 relative", "DESIGN.md 4/C01")
+add("C02", "exploration", "long-double reference oracle on every solve_for_psi_squared return (generated inputs + in situ)",
+    "The documented static method is called on ~1e6 generated site-cases spanning the input space (exact zeros, tiny/large |psi|, gamma=0, ten decades of dt, random sparse and mesh Laplacians) and on every call made by full simulations; a long-double evaluation of the documentation's equations decides answered/refused, the quadratic's backward error, psi'+z|psi'|^2=w, |psi'|^2 consistency and the branch.",
+    "80-bit long double as reference; decision band 1e-9 of the discriminant's terms; overflowing inputs skipped", "DESIGN.md 4/C02")
+add("C05", "exploration", "reference model (executable run specification) over recorded update/save traces, checked on the HDF5 file and the loaded Solution",
+    "From the dt sequence actually returned by update the model derives the final step, the frame set, frame times and per-step records; every frame's datasets must hash-equal the state after exactly s updates, records must appear once and in order, Solution.times/dynamics must agree. Thorough enumerates k=1..N+2, N=0..12 x fixed/adaptive(with retries) x thermalisation x probes (exhaustive within that bound).",
+    "hooks observe the values returned by TDGLSolver.update; sha256 hashes of array bytes", "DESIGN.md 4/C05")
+add("C06", "exploration", "online pin monitor (exact value on terminal sites, identity-row structure, free-update oracle on all other sites) + differential run",
+    "At every update return and saved frame psi on terminal sites must equal terminal_psi exactly, pinned Laplacian rows must be exactly the terminal sites, and every non-pinned site must follow the free TDGL update computed by the long-double oracle with an independently rebuilt Laplacian; unpinned terminals with zero current must reproduce the terminal-free run bit for bit.",
+    "terminal site membership from Device.terminal_info() (C07)", "DESIGN.md 4/C06")
+add("C10", "exploration", "history monitor: live operators vs fresh rebuild vs reference assembly after every set_link_exponents; in-situ link-variable monitor during runs",
+    "Sequences (length 1..6) of vector potentials over {0, A1, A2, 5A1, repeats} are applied to one live MeshOperators for four pin sets; after every call gradient and Laplacian must equal a fresh instance and the reference assembly entry-wise with the same sparsity pattern. During simulations (fast/slow ramps, piecewise, oscillating, screening) the link variables in the operators in use are compared at every solve with the potential the harness evaluates itself.",
+    "fresh MeshOperators build defines 'from scratch' (its correctness is C03); in-situ tolerance admits the solver's documented allclose skip", "DESIGN.md 4/C10")
+add("C12", "exploration", "reference model of the adaptive time-step rule over per-update traces (attempt sequences, proposals, exhaustion)",
+    "Per update: attempts form d, d*m, ... with one factor per refusal, returned dt = last attempt = recorded dt, 0 < dt <= dt_max, fixed-step runs never change dt; after the warm-up window the proposal equals min((dt + dt_init/delta)/2, dt_max) with delta recomputed by the monitor; retry exhaustion raises and records nothing more. Workloads force thousands of retries and several exhaustions.",
+    "delta recomputed from psi passed to / returned by update", "DESIGN.md 4/C12")
+add("C13", "exploration", "online self-consistency monitor on every get_induced_vector_potential call with an independent SI direct sum; kernel differential",
+    "Every screening iteration: monitor recomputes (mu0/4pi) sum K a/r (own site averaging, CODATA scales) and the relative mismatch; reported error must match, accepted steps must be below tolerance, stored potential must reproduce the sum from stored currents (<=5x tol), non-convergence must raise with no later frame, screening off gives identically zero. Numba kernel compared with a numpy double sum on random inputs.",
+    "site-current convention of Solution.current_density; CODATA 2018", "DESIGN.md 4/C13")
+add("C16", "exploration", "differential evaluation of enumerated expression trees against a vt-side tuple-tree evaluator",
+    "~9k (quick) / ~100k (thorough) expression trees over five operators and five leaf kinds, both operand orders, are built with tdgl.Parameter arithmetic and compared with a reference evaluator on scalar/array arguments with and without z and t (including operand-error propagation), plus time_dependent flag, structural equality, cache clearing, pickle round trip; composites are handed to tdgl.solve and must reproduce the run of the equivalent plain Parameter.",
+    "raw leaf functions and Python's operator module define pointwise arithmetic", "DESIGN.md 4/C16")
+add("C17", "exploration", "online stationarity monitor on undriven runs, verdict inside the harness-computed explicit stability bound",
+    "psi=1, mu=0 with no drive: at every update return |psi-1| <= 1e-12 and mu, currents, induced potential exactly zero, adaptive dt grows to dt_max, on irregular/smoothed/holed meshes with unpinned terminals, gamma/u grid, screening. dt_max is drawn inside the mesh's explicit stability bound for the verdict; runs above the bound are classified by mechanism (known finding).",
+    "stability bound from a dense eigenvalue of the reference Laplacian", "DESIGN.md 4/C17")
+
 NOT_APPLICABLE = []
 
 
